@@ -251,6 +251,9 @@ type Engine struct {
 	// explores up to k iterations of a parse loop and cuts the path off
 	// afterwards with outcome kind "cutoff").
 	MaxForks int
+	// TrackFieldStores selects struct fields (by owner type and name) whose stores are
+	// recorded as "fieldstore" events carrying the position of the store instruction.
+	TrackFieldStores func(owner types.Type, field string) bool
 	// fieldOf: the struct type a symbolic field atom ("white.Y") was made for
 	fieldOf map[string]types.Type
 	// MaxIter bounds the number of iterations of unconditional `for { }`
@@ -1034,6 +1037,15 @@ func (e *Engine) exec(st *State, fr *frame, b, pred *ssa.BasicBlock, idx, depth 
 				}
 				if why := e.store(st, p, e.val(st, fr, in.Val)); why != "" {
 					return e.stuck(st, why, in.Pos())
+				}
+				if e.TrackFieldStores != nil {
+					if fa, ok := in.Addr.(*ssa.FieldAddr); ok {
+						if pt, ok := fa.X.Type().Underlying().(*types.Pointer); ok {
+							if stt, ok := pt.Elem().Underlying().(*types.Struct); ok && e.TrackFieldStores(pt.Elem(), stt.Field(fa.Field).Name()) {
+								st.addEvent(Event{Kind: "fieldstore", Fn: stt.Field(fa.Field).Name(), Pos: in.Pos()})
+							}
+						}
+					}
 				}
 			case *ssa.MapUpdate:
 				m, ok := e.val(st, fr, in.Map).(*MapVal)
